@@ -357,6 +357,11 @@ struct Ctx<'a> {
     accepted_msg: bool,
     pd_ok: bool,
     extra: BTreeMap<String, u64>,
+    /// the real state after the last recorded step
+    snap: Snap,
+    kills: u64,
+    e0: i64,
+    len: usize,
 }
 
 impl<'a> Ctx<'a> {
@@ -383,6 +388,7 @@ impl<'a> Ctx<'a> {
         for p in self.w.v.panics.borrow_mut().drain(..) {
             self.stats.panics.push(p);
         }
+        self.snap = s.clone();
         s
     }
     fn last_trace(&self) -> Option<InvocationTrace> {
@@ -537,9 +543,11 @@ impl<'a> Ctx<'a> {
             })
             .collect();
         let was_active = msnap(&self.w.v, &mid).active;
+        let idn0 = self.w.miners[mi].idn;
         self.w.v.take_invocations();
         let res = exec(&self.w.v, &worker, &mid, &TokenAmount::zero(), MinerMethod::PreCommitSectorBatch2 as u64, Some(PreCommitSectorBatchParams2 { sectors }));
         let c = code(&res);
+        if c != 0 && std::env::var("C05_DEBUG").is_ok() { eprintln!("precommit {} -> {} {}", idn0, c, res.message); }
         self.stats.op("precommit", c);
         let t = self.last_trace().unwrap();
         self.check_1000(&t, "precommit");
@@ -587,6 +595,7 @@ impl<'a> Ctx<'a> {
         self.w.v.take_invocations();
         let res = exec(&self.w.v, &worker, &mid, &TokenAmount::zero(), MinerMethod::ProveCommitSectors3 as u64, Some(params));
         let c = code(&res);
+        if c != 0 && std::env::var("C05_DEBUG").is_ok() { eprintln!("provecommit {} -> {} {}", mid, c, res.message); }
         if c == 0 {
             self.w.miners[mi].pending.retain(|(s, _)| !ready.contains(s));
             let st: MinerState = get_state(&self.w.v, &mid).unwrap();
@@ -603,7 +612,7 @@ impl<'a> Ctx<'a> {
 
     fn withdraw(&mut self, mi: usize) {
         let (mid, owner) = (self.w.miners[mi].id, self.w.miners[mi].owner);
-        let amt = if self.r.chance(80) { TokenAmount::from_whole(self.r.range(0, 20)) } else { TokenAmount::from_whole(1_000_000) };
+        let amt = if self.r.chance(96) { TokenAmount::from_whole(self.r.range(0, 20)) } else { TokenAmount::from_whole(1_000_000) };
         self.w.v.take_invocations();
         let res = exec(&self.w.v, &owner, &mid, &TokenAmount::zero(), MinerMethod::WithdrawBalance as u64, Some(WithdrawBalanceParams { amount_requested: amt }));
         let c = code(&res);
@@ -614,6 +623,14 @@ impl<'a> Ctx<'a> {
             }
         }
         self.plain_result(mi, "withdraw", c);
+    }
+
+    fn fund(&mut self, mi: usize) {
+        let (mid, owner) = (self.w.miners[mi].id, self.w.miners[mi].owner);
+        let amt = TokenAmount::from_whole(self.r.range(50, 3000));
+        self.w.v.take_invocations();
+        let res = exec::<()>(&self.w.v, &owner, &mid, &amt, fvm_shared::METHOD_SEND, None);
+        self.plain_result(mi, "fund", code(&res));
     }
 
     fn award(&mut self, mi: usize) {
@@ -747,7 +764,8 @@ impl<'a> Ctx<'a> {
                 let any = (0..self.w.miners.len()).find(|i| !self.w.miners[*i].pending.is_empty());
                 match any { Some(i) => self.provecommit(i), None => self.withdraw(mi) }
             }
-            42..=59 => self.withdraw(mi),
+            42..=51 => self.withdraw(mi),
+            52..=59 => self.fund(mi),
             60..=69 => if active { self.award(mi) } else { self.withdraw(mi) },
             70..=79 => self.terminate(mi),
             80..=93 => self.enrol_et(mi),
@@ -756,9 +774,49 @@ impl<'a> Ctx<'a> {
         self.w.v.fail_plan.replace(None);
     }
 
+    /// run the tick on a checkpoint, look at its trace, restore the state, and choose one nested send to fail
+    fn choose_injection(&mut self, allow_kill: bool) -> Option<(u64, ExitCode)> {
+        let root = self.w.v.checkpoint();
+        self.w.v.take_invocations();
+        let _ = exec::<()>(&self.w.v, &SYSTEM_ACTOR_ADDR, &CRON_ACTOR_ADDR, &TokenAmount::zero(), CronMethod::EpochTick as u64, None);
+        let t = self.w.v.take_invocations().pop().unwrap();
+        self.w.v.rollback(root);
+        self.w.v.panics.borrow_mut().clear();
+        // classify every nested send by its call ordinal
+        let (mut tolerated, mut power_level, mut killers) = (vec![], vec![], vec![]);
+        fn visit(t: &InvocationTrace, ord: &mut u64, depth: u32, in_cb: bool, tol: &mut Vec<u64>, pl: &mut Vec<u64>, kill: &mut Vec<u64>) {
+            for s in &t.subinvocations {
+                let my = *ord;
+                *ord += 1;
+                let is_cb = s.method == MinerMethod::OnDeferredCronEvent as u64 && depth == 1 && s.to != REWARD_ACTOR_ADDR;
+                if depth == 0 {
+                    if s.to == STORAGE_MARKET_ACTOR_ADDR { tol.push(my) } else { pl.push(my) }
+                } else if in_cb {
+                    if s.to == STORAGE_MARKET_ACTOR_ADDR { tol.push(my) } else { kill.push(my) }
+                } else if is_cb {
+                    kill.push(my)
+                } else if depth == 1 && t.to == STORAGE_POWER_ACTOR_ADDR {
+                    pl.push(my)
+                }
+                visit(s, ord, depth + 1, in_cb || is_cb, tol, pl, kill);
+            }
+        }
+        let mut ord = 0u64;
+        visit(&t, &mut ord, 0, false, &mut tolerated, &mut power_level, &mut killers);
+        let codes = [ExitCode::USR_ILLEGAL_ARGUMENT, ExitCode::USR_ILLEGAL_STATE, ExitCode::USR_ASSERTION_FAILED, ExitCode::SYS_OUT_OF_GAS, ExitCode::USR_INSUFFICIENT_FUNDS];
+        let code = *self.r.pick(&codes);
+        let pick_from = match self.r.below(100) {
+            0..=44 if allow_kill && !killers.is_empty() => { self.kills += 1; &killers }
+            0..=69 if !tolerated.is_empty() => &tolerated,
+            _ => &power_level,
+        };
+        if pick_from.is_empty() { return None; }
+        Some((*self.r.pick(pick_from), code))
+    }
+
     fn tick(&mut self, inject: Option<(u64, ExitCode)>) {
         let e = self.epoch();
-        let pre = snapshot(&self.w);
+        let pre = self.snap.clone();
         self.w.v.take_invocations();
         self.w.v.fail_plan.replace(inject);
         let res = exec::<()>(&self.w.v, &SYSTEM_ACTOR_ADDR, &CRON_ACTOR_ADDR, &TokenAmount::zero(), CronMethod::EpochTick as u64, None);
@@ -836,6 +894,7 @@ impl<'a> Ctx<'a> {
         let o = obs(&post, c, e + 1, &log);
         self.steps.push((op, o));
         for p in self.w.v.panics.borrow_mut().drain(..) { self.stats.panics.push(p); }
+        self.snap = post.clone();
 
         // ---- coverage ----
         if entry_fail { self.bump("inj_entry_fail", 1); }
@@ -967,7 +1026,7 @@ fn run_case(cfg: &Cfg, stats: &mut Stats, stop_at: Option<usize>) -> (Case, Vec<
     let pst: PowerState = get_state(&v, &STORAGE_POWER_ACTOR_ADDR).unwrap();
     let init = format!("init {} {} {}", cf::z(e0), cf::z(pst.first_cron_epoch), cf::z(budget));
     let w = W { v, accts, miners: vec![], padded };
-    let mut cx = Ctx { w, r, cfg: cfg.clone(), stats, steps: vec![], fails: vec![], script: vec![], accepted_msg: false, pd_ok: false, extra: BTreeMap::new() };
+    let mut cx = Ctx { w, r, cfg: cfg.clone(), stats, steps: vec![], fails: vec![], script: vec![], accepted_msg: false, pd_ok: false, extra: BTreeMap::new(), snap: Snap { first_cron: 0, miner_count: 0, claims: BTreeSet::new(), queue: BTreeMap::new(), miners: BTreeMap::new() }, kills: 0, e0, len: cfg.len };
     cx.bump(if padded { "cases_padded" } else { "cases_unpadded" }, 1);
     if tweak { cx.bump("cases_policy_tweaked", 1); }
     cx.create_miner();
@@ -1000,9 +1059,9 @@ fn run_case(cfg: &Cfg, stats: &mut Stats, stop_at: Option<usize>) -> (Case, Vec<
         }
         if scen == "random" || scen == "drain" {
             // user messages, concentrated around deadline boundaries
-            let near = cx.w.miners.iter().any(|m| {
-                let (_, _, last) = dl_of(msnap(&cx.w.v, &m.id).pps, e);
-                e == last || e + 1 == last || dl_of(msnap(&cx.w.v, &m.id).pps, e - 1).2 == e - 1
+            let near = cx.snap.miners.values().any(|m| {
+                let (_, _, last) = dl_of(m.pps, e);
+                e == last || e + 1 == last || dl_of(m.pps, e - 1).2 == e - 1
             });
             let p = if near { 30 } else { 1 };
             let mut n = 0;
@@ -1012,12 +1071,12 @@ fn run_case(cfg: &Cfg, stats: &mut Stats, stop_at: Option<usize>) -> (Case, Vec<
                 n += 1;
             }
         }
-        // the tick, sometimes with one nested send failing
-        let has_due = snapshot(&cx.w).queue.range(..=e).next().is_some();
-        let inject = if scen == "random" && ((has_due && cx.r.chance(12)) || cx.r.chance(1) && cx.r.chance(20)) {
-            let codes = [ExitCode::USR_ILLEGAL_ARGUMENT, ExitCode::USR_ILLEGAL_STATE, ExitCode::USR_ASSERTION_FAILED, ExitCode::SYS_OUT_OF_GAS, ExitCode::USR_INSUFFICIENT_FUNDS];
-            let k = if cx.r.chance(85) { 2 + cx.r.below(9) } else { cx.r.below(3) };
-            Some((k, *cx.r.pick(&codes)))
+        // the tick, sometimes with one nested send failing (chosen from a dry run of the same tick)
+        let has_due = cx.snap.queue.range(..=e).next().is_some();
+        let late = (e - cx.e0) as usize * 10 > cx.len * 6;
+        let inject = if scen == "random" && ((has_due && cx.r.chance(7)) || (cx.r.chance(1) && cx.r.chance(25))) {
+            let allow_kill = has_due && late && cx.kills < 2;
+            cx.choose_injection(allow_kill)
         } else { None };
         if inject.is_some() { cx.bump("ticks_with_fault_plan", 1); }
         cx.tick(inject);
